@@ -1,5 +1,6 @@
 //! Verification harness crate for RainDB (Engine A harnesses live behind cfg(kani); native replay in bin/replay.rs).
 #![recursion_limit = "512"]
+pub mod battery;
 pub mod faultfs;
 pub mod hookfs;
 pub mod onefs;
